@@ -336,6 +336,23 @@ impl Polynomial<Cmplx> {
     }
 
     fn laguer( a: &mut Vector::<Cmplx>, x: &mut Cmplx, iterations: &mut usize ) {
+        if Self::laguer_from( a, x, iterations ) { return; }
+        // Laguerre's iteration can be caught in a cycle ( between a flat region and the point its Newton-like
+        // step leads to ) until the iterations are used up: what it is left with is no root, so start again
+        // from points on the circle whose radius is the geometric mean of the moduli of the non-zero roots
+        let m = a.size() - 1;
+        let low = ( 0..m ).find( |&j| a[j] != Cmplx::zero() ).unwrap_or( m );
+        if low == m { return; } // a_m x^m: x = 0 is all there is
+        let radius = ( a[low] / a[m] ).abs().powf( 1.0 / ( m - low ) as f64 );
+        for attempt in 1..4 {
+            *x = Cmplx::polar( radius, attempt as f64 );
+            if Self::laguer_from( a, x, iterations ) { return; }
+        }
+    }
+
+    // Laguerre's iteration from x; false if the iterations were used up and x is no root ( a cycle between
+    // neighbouring numbers at rounding level, |p( x )| within 1000 rounding errors, is convergence )
+    fn laguer_from( a: &mut Vector::<Cmplx>, x: &mut Cmplx, iterations: &mut usize ) -> bool {
         const MR: usize = 8;
         const MT: usize = 10;
         const MAXIT: usize = MT * MR;
@@ -365,17 +382,17 @@ impl Polynomial<Cmplx> {
                 err = b.abs() + abx * err;
             }
             err *= EPS;
-            if b.abs() <= err { return; }
+            if b.abs() <= err { return true; }
             let g = d / b;
             let g2 = g * g;
             // ( p'/p )^2 overflows: x is a root to within the square root of the double range, nothing to improve
             // ( the polish of a root at 0 arrives here: x -> 1e-16, 1e-32, ... , 1e-256 )
-            if !( g2.real.is_finite() && g2.imag.is_finite() ) { return; }
+            if !( g2.real.is_finite() && g2.imag.is_finite() ) { return true; }
             let h = g2 - 2. * ( f / b );
             let sq = ( ( h * (m as f64) - g2 ) * ( m - 1 ) as f64  ).sqrt();
             // g2 can be just finite ( |p'/p| ~ 1.3e154 ) while the radicand overflows: the NaN moduli below would select the
             // fallback step of modulus 1 + |x| and carry a converged x ( a root at 0 being polished ) onto another root
-            if !( sq.real.is_finite() && sq.imag.is_finite() ) { return; }
+            if !( sq.real.is_finite() && sq.imag.is_finite() ) { return true; }
             let mut gp = g + sq;
             let gm = g - sq;
             let abp = gp.abs();
@@ -387,16 +404,23 @@ impl Polynomial<Cmplx> {
                 Cmplx::polar( 1.0 + abx, iter as f64 )
             };
             // A step that leaves the disc containing all the roots (p' and p'' nearly zero at x, as for
-            // x^8 - 1 + O(1e-9) at x = 0) only starts a huge/tiny oscillation: step by the geometric mean of the
-            // distances to the roots, |p( x ) / a_m|^(1/m), instead ( the fallback step of modulus 1 + |x| leaves a disc
-            // of radius < 1 again, and x^12 + 6e-4 x^7 + 8e-6 x + 8e-6 cycled between 0 and 1 until MAXIT; a restart far
-            // from x, on the circle of radius bound / 2, came straight back to the centre of ( x - 1 )^8 + 1e-4, 79 times )
+            // x^8 - 1 + O(1e-9) at x = 0) only starts a huge/tiny oscillation: restart from a point inside the
+            // disc instead ( the fallback step of modulus 1 + |x| leaves a disc of radius < 1 again, and
+            // x^12 + 6e-4 x^7 + 8e-6 x + 8e-6 cycled between 0 and 1 until MAXIT )
             if ( *x - dx ).abs() > bound { dx = Cmplx::polar( ( b / a[m] ).abs().powf( 1.0 / m as f64 ), iter as f64 ); }
-            if !( dx.real.is_finite() && dx.imag.is_finite() ) { return; } // cannot improve x any further
+            if !( dx.real.is_finite() && dx.imag.is_finite() ) { return true; } // cannot improve x any further
             let x1 = *x - dx;
-            if *x == x1 { return; }
+            if *x == x1 { return true; }
             if iter % MT != 0 { *x = x1; } else { *x -= dx * frac[ iter / MT ]; }
         }
+        let mut b = a[m];
+        let mut err = b.abs();
+        let abx = x.abs();
+        for j in (0..m).rev() {
+            b = *x * b + a[j];
+            err = b.abs() + abx * err;
+        }
+        b.abs() <= 1000.0 * EPS * err
     }
 }
 
